@@ -645,7 +645,21 @@ func c08Gen1(r *vf.Rand) c08Case {
 
 				switch {
 				case i == plen-1 && r.Chance(15) || i < plen-1 && r.Chance(5):
-					rt.Pat = append(rt.Pat, c08Seg{"all", fmt.Sprintf("r%d", i)})
+					name := fmt.Sprintf("r%d", i)
+					rt.Pat = append(rt.Pat, c08Seg{"all", name})
+
+					// path_params on the free wildcard (possible since fix: commit 88da16a, C03-F2)
+					if i < nseg && r.Chance(30) {
+						want := strings.Join(base[i:], "/")
+						if r.Chance(60) {
+							want = c08Decoded(want)
+						}
+
+						if want != "" {
+							rt.Params = append(rt.Params, [2]string{name, want})
+						}
+					}
+
 					i = plen // a catch-all ends the expression
 				case r.Chance(40):
 					name := fmt.Sprintf("p%d", i)
@@ -669,11 +683,6 @@ func c08Gen1(r *vf.Rand) c08Case {
 				default:
 					rt.Pat = append(rt.Pat, c08Seg{"lit", lit})
 				}
-			}
-
-			// path_params are not used on catch-all routes (C03-F2 is another property's finding)
-			if rt.Pat[len(rt.Pat)-1].K == "all" {
-				rt.Params = nil
 			}
 
 			rl.Routes = append(rl.Routes, rt)
